@@ -11,13 +11,48 @@ import (
 	"fmt"
 	"net/netip"
 	"testing"
+	"time"
 
 	"github.com/DataDog/datadog-traceroute/packets"
 
 	"verifharness/hx"
 )
 
+// c12SackSite: the same question for the SACK entry point, which needs a real connection: a loop-back
+// listener, the SYN-ACK staged at the seam (machinery of C08's SACK cases).
+func c12SackSite(t *testing.T, rep *hx.Report) {
+	_, rerr, acc, _ := c08RunSack(t, c08SackCase{Name: "sack-replies", Listen: true, SynAck: true, Reply: true, Timeout: 300 * time.Millisecond, MaxTTL: 3})
+	loop := netip.MustParseAddr("127.0.0.1")
+	sample := map[string]any{"protocol": "sack", "target": netip.AddrPortFrom(loop, c08LastSack.Port).String(), "client_port": c08LastSack.ClientPort,
+		"filters": fmt.Sprint(c08LastSack.Filters), "run_error": fmt.Sprint(rerr), "accepted_connections": acc}
+	rep.Case("sites", fmt.Sprint("sack", c08LastSack.Port, c08LastSack.ClientPort), true, sample)
+	rep.Hit("sites:sack")
+	if acc == 0 || c08LastSack.ClientPort == 0 {
+		rep.Note("sites/sack: the loop-back connection was not established in this sandbox; tuple direction of the SACK site not observed")
+		return
+	}
+	want := packets.FilterConfig{Src: netip.AddrPortFrom(loop, c08LastSack.Port), Dst: netip.AddrPortFrom(loop, c08LastSack.ClientPort)}
+	bad, seen := "", false
+	for _, f := range c08LastSack.Filters {
+		if f.FilterType != packets.FilterTypeTCP {
+			continue
+		}
+		seen = true
+		if f.FilterConfig != want {
+			bad = fmt.Sprintf("the SACK run installed the tuple filter with Src=%s Dst=%s; replies on its connection come from %s to %s", f.FilterConfig.Src, f.FilterConfig.Dst, want.Src, want.Dst)
+		}
+	}
+	if !seen {
+		bad = "the SACK run installed no tuple filter after its handshake"
+	}
+	if bad != "" {
+		sample["what"] = bad
+		rep.Violate(hx.Violation{Kind: "spec", What: "capture filter does not cover the run's replies: " + bad, Sig: map[string]string{"stream": "sites", "protocol": "sack"}, Replay: sample})
+	}
+}
+
 func c12SitesStream(t *testing.T, rep *hx.Report, rng *hx.RNG, n int) {
+	c12SackSite(t, rep)
 	for i := 0; i < n; i++ {
 		c := genRunLevel(rng)
 		c.Proto = []string{"tcp", "tcp-paris"}[i%2]
